@@ -132,6 +132,23 @@ def loop_body_effect(fn, cfg, next_bb):
             ordered.append(name)
         if c == "std::ops::FromResidual::from_residual" and False:
             pass
+    # inserts into a map are order-neutral only when distinct items get distinct keys: the key must be the iterated item
+    # itself (moved, borrowed, cloned, converted 1:1), not something computed from it (to_lowercase, trim, a constant ...)
+    du = mir.DefUse(fn)
+    IDENT = ("std::clone::Clone::clone", "std::borrow::ToOwned::to_owned", "std::string::ToString::to_string", "std::convert::From::from",
+             "std::convert::Into::into", "std::convert::AsRef::as_ref", "std::string::String::as_str", "std::ops::Deref::deref",
+             "std::borrow::Borrow::borrow", "alloc::str::<impl str>::to_owned", "std::string::String::from")
+    for b in body:
+        t = fn["blocks"][b]["t"]
+        if t["k"] != "call":
+            continue
+        c = t.get("callee") or ""
+        if re.search(r"(BTreeMap|HashMap|IndexMap)::<.*>::insert$", c) and len(t["args"]) >= 3:
+            org = mir.provenance(fn, du, t["args"][1], transparent_extra=IDENT)
+            from_item = any(o.kind == "call" and o.bb == next_bb for o in org)
+            if not from_item:
+                via = sorted({o.callee.split("::")[-1] for o in org if o.kind == "call"} | {"a constant" for o in org if o.kind == "const"})
+                return "ordered", "loop body inserts into a map under a key that is not the iterated item itself (computed via %s): items whose keys collide overwrite each other in hash order" % (", ".join(via) or "another value")
     if ordered:
         return "ordered", "loop body appends to a sequence (%s)" % ",".join(sorted(set(ordered)))
     return "neutral", "loop body only updates unordered / sorted containers"
